@@ -165,10 +165,26 @@ example : binop exEnv true .sub (.ndarr [10, 20]) (.array exQ .list [1, 2]) = .o
 example : binop exEnv true .div (.array exQ .nd [1, 2]) (.num false 0) = .error .other := by decide +kernel
 
 /-- why `Normal` is needed for Arrays: a hand-built dict with two units (12 = 1/100 of 11) of one
-quantity type is converted by `_MatchQuantities` even when the other operand is a number -/
+quantity type is converted by `_MatchQuantities` even when the other operand is a number.
+This is the model-side witness of the KNOWN FINDING `C09-array-number-mixed-units-of-one-type`
+(known_findings.json; real-code witness: `Array.CreateWithQuantity(ObtainQuantity(OrderedDict([('length',
+['m',1]),('depth',['cm',1])])), [1.0, 2.0]) * 2` is `[0.02, 0.04] m2`): the full-strength statement
+"`array_op_num` for every quantity" is false for the code as it is, so the proved theorems keep the
+hypothesis `Normal`, and `harness/props/C09.py` excuses exactly this input class (`CLASS_MIXED`). -/
 theorem array_mul_num_unmatched_counterexample :
     binop exEnv true .mul (.array [⟨101, 11, 1⟩, ⟨102, 12, 1⟩] .list [1, 2]) (.num false 2)
       = .ok (.array [⟨101, 11, 1⟩, ⟨102, 11, 1⟩] .list [1 / 50, 1 / 25]) := by
   decide +kernel
+
+/-- the same known finding for `+` (the replay case of the entry): `x + 1` neither keeps x's quantity
+(unit 12 of the second item became 11) nor adds 1 to the values `[1, 2]` — 1 is added after the
+conversion, in the other unit -/
+theorem array_add_num_unmatched_counterexample :
+    binop exEnv true .sum (.array [⟨101, 11, 1⟩, ⟨102, 12, 1⟩] .list [1, 2]) (.num false 1)
+      = .ok (.array [⟨101, 11, 1⟩, ⟨102, 11, 1⟩] .list [101 / 100, 51 / 50]) ∧
+    ¬ Normal exEnv [⟨101, 11, 1⟩, ⟨102, 12, 1⟩] := by
+  refine ⟨by decide +kernel, fun h => ?_⟩
+  have := h.same ⟨101, 11, 1⟩ (by simp) ⟨102, 12, 1⟩ (by simp) (by decide +kernel)
+  simp at this
 
 end Barril.Ops
